@@ -128,6 +128,14 @@ where
         self.flip.is_empty()
     }
 
+    #[cfg(feature = "verif-hooks")]
+    pub(crate) fn verif_entries(&self) -> Vec<(Vec<u8>, usize)> {
+        self.flip
+            .iter()
+            .map(|entry| (entry.data.clone(), entry.remaining_tx))
+            .collect()
+    }
+
     pub(crate) fn add_or_replace(&mut self, item: T, data: Vec<u8>, max_tx: usize) {
         debug_assert!(max_tx > 0);
         self.flip.retain(|node| !item.invalidates(&node.item));
